@@ -27,8 +27,10 @@ fn perm_index(pos: &[usize]) -> usize {
 fn fact(n: usize) -> usize { (1..=n).product() }
 
 /// positions of the items of one single-asset batch of `n` distinct new limit orders
-fn env_positions(seed: u64, n: usize) -> Vec<usize> {
-    let mut env: Env<1> = Env::new(1000, 1, 1_000_000, true);
+fn env_positions(seed: u64, n: usize) -> Vec<usize> { env_positions_t(seed, n, true) }
+fn env_positions_off(seed: u64, n: usize) -> Vec<usize> { env_positions_t(seed, n, false) }
+fn env_positions_t(seed: u64, n: usize, trading: bool) -> Vec<usize> {
+    let mut env: Env<1> = Env::new(1000, 1, 1_000_000, trading);
     let mut rng = Xoroshiro128StarStar::seed_from_u64(seed);
     for i in 0..n { env.place_order(Side::Bid, 1 + (i as u32 % 5), i as u32, Some(10 + i as u32)).unwrap(); }
     env.step(&mut rng);
@@ -37,8 +39,10 @@ fn env_positions(seed: u64, n: usize) -> Vec<usize> {
 
 /// mixed kinds: `n` instructions alternating new orders and cancels of resting orders (position read
 /// from arrival resp. end times), on a 2-asset MarketEnv with assets interleaved (1,0,1,0,...)
-fn menv_positions(seed: u64, n: usize) -> Vec<usize> {
-    let mut env: MarketEnv<2, 1> = MarketEnv::new(0, [1, 1], 1_000_000, true);
+fn menv_positions(seed: u64, n: usize) -> Vec<usize> { menv_positions_t(seed, n, true) }
+fn menv_positions_off(seed: u64, n: usize) -> Vec<usize> { menv_positions_t(seed, n, false) }
+fn menv_positions_t(seed: u64, n: usize, trading: bool) -> Vec<usize> {
+    let mut env: MarketEnv<2, 1> = MarketEnv::new(0, [1, 1], 1_000_000, trading);
     let mut rng = Xoroshiro128StarStar::seed_from_u64(seed ^ 0x5DEECE66D);
     let ncancel = n / 2;
     let mut cancel_ids = Vec::new();
@@ -104,9 +108,11 @@ pub fn run(seeds_small: u64, seeds_large: u64, base: u64) -> (Vec<String>, Strin
     let mut summary = Vec::new();
     // how many cells are tested in total (for the union bound)
     let mut cells = 0.0;
-    for n in 2..=6 { cells += 4.0 * fact(n) as f64; }
-    for n in [8usize, 16, 32, 64] { cells += 4.0 * (n * n) as f64 * 2.0; }
+    for n in 2..=6 { cells += 6.0 * fact(n) as f64; }
+    for n in [8usize, 16, 32, 64] { cells += 6.0 * (n * n) as f64 * 2.0; }
     for (label, f) in [("Env", env_positions as fn(u64, usize) -> Vec<usize>), ("MarketEnv-mixed", menv_positions as fn(u64, usize) -> Vec<usize>),
+                       ("Env (trading disabled)", env_positions_off as fn(u64, usize) -> Vec<usize>),
+                       ("MarketEnv-mixed (trading disabled)", menv_positions_off as fn(u64, usize) -> Vec<usize>),
                        ("Env-cancel-of-same-step-order", env_same_step_cancel as fn(u64, usize) -> Vec<usize>),
                        ("Env-modify-of-same-step-order", env_same_step_modify as fn(u64, usize) -> Vec<usize>)] {
         for n in 2..=6usize {
